@@ -136,7 +136,7 @@ def encSEv : SEv → Json
 open SV.Model.Stateful in
 def decEnding : Json → Except String RunEnd
   | .str "ok" => pure .ok | .str "keyboardInterrupt" => pure .keyboardInterrupt | .str "skipTest" => pure .skipTest
-  | .str "failureGroup" => pure .failureGroup | .str "flaky" => pure .flaky
+  | .str "failureGroup" => pure .failureGroup | .str "flaky" => pure .flaky | .str "flakyNoFailure" => pure .flakyNoFailure
   | .str "unsatisfiableRetry" => pure .unsatisfiableRetry | .str "unsatisfiableGiveUp" => pure .unsatisfiableGiveUp
   | .str "otherException" => pure .otherException
   | _ => .error "bad ending"
